@@ -155,7 +155,8 @@ def gen_field_spec(rng: random.Random, kmin=2, kmax=6):
         pos = [round(sx * shape[0] * 4) / 4 + rng.choice([0, 0.25]), round(sy * shape[1] * 4) / 4 + rng.choice([0, 0.25])]
         drops.append([pos, rng.choice([1.25, 1.5, 1.75]), rng.choice([0.5, 0.75])])
     return {"shape": shape, "periodic": periodic, "droplets": drops,
-            "noise": rng.choice([0.0, 0.0, 0.02]), "seed": rng.randrange(10 ** 6)}
+            "noise": rng.choice([0.0, 0.0, 0.02]), "seed": rng.randrange(10 ** 6),
+            "dtype": rng.choice([None, None, None, None, "float32", "int"])}
 
 
 def make_field(spec):
@@ -168,7 +169,47 @@ def make_field(spec):
         f = ScalarField(grid, 0.0)
     if spec["noise"]:
         f.data += np.random.default_rng(spec["seed"]).normal(0, spec["noise"], grid.shape)
+    dt = spec.get("dtype")
+    if dt == "float32":
+        f = ScalarField(grid, f.data.astype(np.float32), dtype=np.float32)
+    elif dt == "int":  # grey levels 0..4
+        f = ScalarField(grid, np.rint(np.clip(f.data, 0, 1) * 4).astype(int), dtype=int)
     return f
+
+
+def realise(v):
+    """JSON-friendly values -> the Python objects handed to the implementation ({"__np__": "int64", "v": 2})."""
+    if isinstance(v, dict) and "__np__" in v:
+        return getattr(np, v["__np__"])(v["v"])
+    return v
+
+
+def make_storage(case, fields, tmpdir=None):
+    """MemoryStorage, or a FileStorage (HDF5) written to the case directory and reopened read-only."""
+    from pde import FileStorage, MemoryStorage
+    if not fields:
+        return MemoryStorage(times=[], data=[]), None
+    if case.get("storage") == "file" and tmpdir is not None:
+        path = os.path.join(tmpdir, "c15_storage.hdf5")
+        if os.path.exists(path):
+            os.remove(path)
+        w = FileStorage(path, write_mode="truncate")
+        w.start_writing(fields[0])
+        for f, t in zip(fields, case["times"]):
+            w.append(f, t)
+        w.end_writing()
+        w.close()
+        return FileStorage(path, write_mode="read_only"), path
+    return MemoryStorage.from_fields(case["times"], fields), None
+
+
+def release_storage(storage, path):
+    if path is not None:
+        try:
+            storage.close()
+        finally:
+            if os.path.exists(path):
+                os.remove(path)
 
 
 def fresh(x):
@@ -261,7 +302,8 @@ def gen_refine_case(rng: random.Random, k: int):
     drop = [rng.randrange(n)] if rng.random() < 0.4 else []
     np_, pattern = CONFIGS_REFINE[k % len(CONFIGS_REFINE)]
     return {"call": "refine_droplets", "field": spec, "kwargs": kwargs, "drop": drop,
-            "candidate_kind": rng.choice(["located", "located", "perturbed", "diffuse", "diffuse_unset", "perturbed2d"]),
+            "candidate_kind": rng.choice(["located", "located", "perturbed", "diffuse", "diffuse_unset", "perturbed2d",
+                                          "unpickled", "refined"]),
             "container": rng.choice(["list", "emulsion"]), "num_processes": np_, "delays": pattern}
 
 
@@ -285,6 +327,16 @@ def candidates_of(case, field):
     elif kind == "perturbed2d":
         from droplets.droplets import PerturbedDroplet2D
         cands = [PerturbedDroplet2D(c.position, c.radius, 1.0, [0.0, 0.0]) for c in cands]
+    elif kind == "unpickled":  # what a worker process / a file hands back
+        import pickle
+        cands = [pickle.loads(pickle.dumps(DiffuseDroplet(c.position, c.radius))) for c in cands]
+    elif kind == "refined":  # results of a previous refinement, deep-copied
+        import copy
+        from droplets.image_analysis import refine_droplet
+        with warnings.catch_warnings():
+            warnings.simplefilter("ignore")
+            cands = [copy.deepcopy(_STATE["orig_refine"](field, c) if _STATE["orig_refine"] else refine_droplet(field, c))
+                     for c in cands]
     if "take" in case:  # only the first k candidates (edge cases: 0, 1, 2 tasks)
         cands = cands[:case["take"]]
     return cands
@@ -422,10 +474,11 @@ def gen_locate_case(rng: random.Random, k: int):
     opts = rng.choice([{}, {"threshold": "extrema"}, {"minimal_radius": 1.0}, {"modes": 2},
                        {"modes": 1, "interface_width": 1.0}, {"interface_width": 0.75},
                        {"refine_args": {"vmin": None, "vmax": None}}, {"threshold": 0.4, "minimal_radius": 0.5},
+                       {"refine_args": None}, {"refine_args": {}},
                        {"refine_args": {"adjust_values": True, "least_squares_params": {"max_nfev": 4}}},
                        {"refine_args": {"adjust_values": True, "tolerance": 1e-3, "least_squares_params": {"max_nfev": 6}},
                         "minimal_radius": 0.5}])
-    if "least_squares_params" in opts.get("refine_args", {}):
+    if "least_squares_params" in (opts.get("refine_args") or {}):
         spec = gen_field_spec(rng, 3, 6)
     np_, pattern = [(2, "reversed"), ("auto", "interleaved"), (3, "first_slow")][k % 3]
     return {"call": "locate_droplets", "field": spec, "options": opts, "num_processes": np_, "delays": pattern}
@@ -489,11 +542,17 @@ def gen_storage_case(rng: random.Random, k: int):
     opts = rng.choice([{}, {"refine": True}, {"minimal_radius": 1.0, "threshold": "extrema"},
                        {"refine": True, "modes": 1, "refine_args": {"vmin": None, "vmax": None}},
                        {"refine": True, "refine_args": {"adjust_values": True, "tolerance": 1e-3,
-                                                        "least_squares_params": {"max_nfev": 4}}}])
+                                                        "least_squares_params": {"max_nfev": 4}}},
+                       {"refine": True, "refine_args": None}, {"refine": True, "refine_args": {}}])
+    dtype = rng.choice([None, None, None, "float32", "int"])
+    if dtype:
+        for f in frames:
+            f["dtype"] = dtype
     np_, pattern = [(2, "first_slow"), (3, "reversed"), ("auto", "first_slow"), (1, "none"), (3, "interleaved")][k % 5]
     # the documented `progress` argument: None (default), False, True -- every value with every process count
     return {"call": "from_storage", "frames": frames, "times": [0.5 * i + 0.25 for i in range(n)], "options": opts,
-            "num_processes": np_, "delays": pattern, "progress": [True, None, False][k % 3]}
+            "num_processes": np_, "delays": pattern, "progress": [True, None, False][k % 3],
+            "storage": ["memory", "file"][(k // 2) % 2]}
 
 
 def gen_tracklist_case(rng: random.Random, k: int):
@@ -510,7 +569,7 @@ def run_storage_case(case, log=None, unit=0.12):
     import droplets.image_analysis as ia
     from droplets.emulsions import EmulsionTimeCourse
     fields = [make_field(s) for s in case["frames"]]
-    storage = MemoryStorage.from_fields(case["times"], fields)
+    storage, spath = make_storage(case, fields, os.path.dirname(log) if log else None)
     keys = [np.ascontiguousarray(f.data).tobytes() for f in storage]
     distinct = len(set(keys)) == len(keys)
     delays, sigma = delay_pattern(case["delays"], len(keys), unit)
@@ -533,6 +592,7 @@ def run_storage_case(case, log=None, unit=0.12):
             except Exception as e:  # noqa
                 par = ("err", type(e).__name__)
             completed = p.completion_order()
+    release_storage(storage, spath)
     return {"n": len(keys), "sigma": sigma, "serial": ser1, "serial_again": ser2, "direct": direct, "parallel": par,
             "completed": completed, "mutation_serial": mut_s, "mutation_parallel": mutation_of(case["options"], kw, tol),
             "serial_reused_options": ser3}
@@ -614,6 +674,7 @@ def judge_tracklist_case(case, obs):
 EDGE_FULL = {"shape": [16, 16], "periodic": True, "noise": 0.0, "seed": 3,
              "droplets": [[[3.0, 3.0], 1.5, 0.75], [[8.25, 8.0], 1.75, 0.5], [[13.0, 3.0], 1.25, 0.75]]}
 EDGE_EMPTY = {"shape": [16, 16], "periodic": True, "noise": 0.0, "seed": 3, "droplets": []}
+EDGE_SINGLE_P = {"shape": [16, 16], "periodic": True, "noise": 0.0, "seed": 3, "droplets": [[[8.0, 8.0], 2.0, 0.75]]}
 EDGE_SINGLE = {"shape": [16, 16], "periodic": False, "noise": 0.0, "seed": 3, "droplets": [[[8.0, 8.0], 2.0, 0.75]]}
 
 
@@ -634,6 +695,17 @@ def edge_cases():
                           "frames": [EDGE_FULL] * nframes, "times": [0.5] * nframes,
                           "options": {"refine": True, "minimal_radius": 0.5}, "progress": [None, True][nframes],
                           "num_processes": np_, "delays": "none"})
+    # num_processes as a numpy integer (valid: an integer), as the float 1.0 / 2.0, as None, 0 and negative
+    # (documented: "int or 'auto'"): see judge_edge_case for what is demanded of each
+    for v in ({"__np__": "int64", "v": 2}, {"__np__": "int64", "v": 1}, 2.0, 1.0, None, 0, -1):
+        cases.append({"call": "edge", "entry": "refine_droplets", "what": "3 candidates", "field": EDGE_FULL, "take": 3,
+                      "candidate_kind": "located", "container": "list", "kwargs": {}, "num_processes": v, "delays": "none"})
+        cases.append({"call": "edge", "entry": "from_storage", "what": "storage with 2 frame(s)",
+                      "frames": [EDGE_FULL, EDGE_SINGLE_P], "times": [0.5, 1.5], "options": {"refine": True},
+                      "progress": None, "num_processes": v, "delays": "none"})
+        if v in (0, -1) or isinstance(v, dict):
+            cases.append({"call": "edge", "entry": "locate_droplets", "what": "frame with three droplets", "field": EDGE_FULL,
+                          "options": {}, "num_processes": v, "delays": "none"})
     return cases
 
 
@@ -664,11 +736,24 @@ def run_edge_case(case):
 
     with warnings.catch_warnings():
         warnings.simplefilter("ignore")
-        (ser, n), (par, _) = call(1), call(case["num_processes"])
+        (ser, n), (par, _) = call(1), call(realise(case["num_processes"]))
     return {"n": n, "sigma": [], "serial": ser, "parallel": par, "completed": None}
 
 
 def judge_edge_case(case, obs):
+    v = realise(case["num_processes"])
+    if v is not None and not isinstance(v, str) and not isinstance(v, dict):
+        if isinstance(v, (int, np.integer)) and not isinstance(v, bool) and v <= 0:
+            # a non-positive process count cannot be honoured: every entry point must reject it the same way
+            # (Model/Parallel.v: BadWorkerCount = ValueError of the pool) -- unless there is nothing to do in parallel
+            if obs["parallel"] != ("err", "ValueError") and obs["n"] > 0:
+                got = obs["parallel"][1] if obs["parallel"][0] == "err" else "a result"
+                return [f"{case['entry']} ({case['what']}): num_processes={v} gives {got}, expected ValueError"]
+            return []
+        if isinstance(v, float):
+            # not documented (int or "auto"): recorded; if it returns, the result must be the serial one
+            if obs["parallel"][0] == "err":
+                return []
     if obs["serial"] != obs["parallel"]:
         d = lambda r: r[1] if r[0] == "err" else ("returns " + (str(len(r[1])) + " droplets" if isinstance(r[1], list)  # noqa
                                                                else str(len(r[1]["times"])) + " frames"))
@@ -850,11 +935,16 @@ def _check(ctx: vlib.Ctx) -> int:
     def record(kind, case, obs, fails):
         ctx.case([kind, case], nontrivial=obs["n"] > 0)
         ctx.count("call", kind)
-        ctx.count("num_processes", case["num_processes"])
+        ctx.count("num_processes", json.dumps(case["num_processes"]))
         ctx.count("delay_pattern", case["delays"])
         if "progress" in case:
             ctx.count("progress x num_processes", f"{case['progress']} x {case['num_processes']}")
         ctx.count("tasks", obs["n"])
+        ctx.count("storage_kind", case.get("storage", "memory") if "frames" in case else "n/a")
+        spec0 = case.get("field") or (case.get("frames") or [{}])[0]
+        ctx.count("image_dtype", spec0.get("dtype") or "float64")
+        ra = (case.get("options") or {}).get("refine_args", "<absent>") if "options" in case else "<n/a>"
+        ctx.count("refine_args None/{}/dict", "None" if ra is None else "{}" if ra == {} else ra if isinstance(ra, str) else "dict")
         for key in ("mutation_serial", "mutation_parallel"):
             if key in obs:
                 ctx.count("caller_option_dicts_after_call(" + key.split("_")[1] + ")",
@@ -884,7 +974,9 @@ def _check(ctx: vlib.Ctx) -> int:
     for case in edge_cases():
         obs = run_edge_case(case)
         record("edge:" + case["entry"], case, obs, judge_edge_case(case, obs))
-        ctx.count("edge_tasks x num_processes", f"{case['what']} x {case['num_processes']}")
+        ctx.count("edge_tasks x num_processes", f"{case['what']} x {json.dumps(case['num_processes'])}")
+        ctx.count("edge_outcome", f"num_processes={json.dumps(case['num_processes'])}: " +
+                  (obs["parallel"][1] if obs["parallel"][0] == "err" else "returns"))
     # ---- refine_droplets
     for k in range(ctx.scale(42, 160)):
         case = gen_refine_case(rng, k)
